@@ -108,15 +108,44 @@ pub enum End {
     Drop,
     Forget,
     /// finish through the iterator's own bulk methods (which an implementation may override): the rest is consumed by
-    /// `count()`, `last()`, `fold`, `rfold` or `step_by(2)`; every remaining item is reported and destroyed
+    /// `count()`, `last()`, `fold`, `rfold`, `step_by(2)`, `for_each`, `max_by_key`, `min_by_key`; every remaining item is
+    /// reported and destroyed
     Count,
     Last,
     Fold,
     RFold,
     StepBy2,
+    ForEach,
+    MaxByKey,
+    MinByKey,
+    /// early-exit searches for the element that was at absolute index `j` of the vector before the operation (no match when
+    /// `j` is out of range or that element is no longer among the remaining items); what is left afterwards is reported by
+    /// `len()` and consumed through `fold`
+    Find(u8),
+    RFind(u8),
+    Position(u8),
+    RPosition(u8),
+    Any(u8),
+    All(u8),
 }
 impl End {
-    pub const FINISHERS: [End; 5] = [End::Count, End::Last, End::Fold, End::RFold, End::StepBy2];
+    pub const BULK: [End; 8] = [End::Count, End::Last, End::Fold, End::RFold, End::StepBy2, End::ForEach, End::MaxByKey, End::MinByKey];
+    /// Bulk finishers plus the searches aimed at the given absolute indices.
+    pub fn finishers(targets: &[usize]) -> Vec<End> {
+        let mut v = End::BULK.to_vec();
+        for t in targets {
+            let j = (*t).min(250) as u8;
+            v.extend([End::Find(j), End::RFind(j), End::Position(j), End::RPosition(j), End::Any(j), End::All(j)]);
+        }
+        v
+    }
+    /// Absolute index of the element a search finisher looks for.
+    pub fn index(&self) -> Option<usize> {
+        match self {
+            End::Find(j) | End::RFind(j) | End::Position(j) | End::RPosition(j) | End::Any(j) | End::All(j) => Some(*j as usize),
+            _ => None,
+        }
+    }
     pub fn suffix(&self) -> &'static str {
         match self {
             End::Drop => "",
@@ -126,17 +155,63 @@ impl End {
             End::Fold => "+fold",
             End::RFold => "+rfold",
             End::StepBy2 => "+step_by",
+            End::ForEach => "+for_each",
+            End::MaxByKey => "+max_by_key",
+            End::MinByKey => "+min_by_key",
+            End::Find(_) => "+find",
+            End::RFind(_) => "+rfind",
+            End::Position(_) => "+position",
+            End::RPosition(_) => "+rposition",
+            End::Any(_) => "+any",
+            End::All(_) => "+all",
         }
     }
-    /// What the finisher reports for the remaining items `rest` (front to back): (values, count report).
-    pub fn expected(&self, rest: &[Id]) -> (Vec<Val>, Option<usize>) {
+    /// What the finisher reports for the remaining items `rest` (front to back): (values, numeric reports).
+    /// `target` is the identity a search finisher looks for.
+    pub fn expected(&self, rest: &[Id], target: Option<Id>) -> (Vec<Val>, Vec<usize>) {
+        let ids = |r: &[Id]| -> Vec<Val> { r.iter().map(|i| Val::Id(*i)).collect() };
+        let first = target.and_then(|t| rest.iter().position(|i| *i == t));
+        let last = target.and_then(|t| rest.iter().rposition(|i| *i == t));
+        // after a search: the remaining count, then the remaining items through fold
+        let after = |mut vals: Vec<Val>, mut nums: Vec<usize>, r: &[Id]| {
+            nums.push(r.len());
+            vals.extend(ids(r));
+            (vals, nums)
+        };
         match self {
-            End::Drop | End::Forget => (vec![], None),
-            End::Count => (vec![], Some(rest.len())),
-            End::Last => (vec![rest.last().map(|i| Val::Id(*i)).unwrap_or(Val::None)], None),
-            End::Fold => (rest.iter().map(|i| Val::Id(*i)).collect(), None),
-            End::RFold => (rest.iter().rev().map(|i| Val::Id(*i)).collect(), None),
-            End::StepBy2 => (rest.iter().step_by(2).map(|i| Val::Id(*i)).collect(), None),
+            End::Drop | End::Forget => (vec![], vec![]),
+            End::Count => (vec![], vec![rest.len()]),
+            End::Last => (vec![rest.last().map(|i| Val::Id(*i)).unwrap_or(Val::None)], vec![]),
+            End::Fold | End::ForEach => (ids(rest), vec![]),
+            End::RFold => (rest.iter().rev().map(|i| Val::Id(*i)).collect(), vec![]),
+            End::StepBy2 => (rest.iter().step_by(2).map(|i| Val::Id(*i)).collect(), vec![]),
+            // max_by_key returns the last maximum, min_by_key the first minimum
+            End::MaxByKey => (vec![rest.iter().max().map(|i| Val::Id(*i)).unwrap_or(Val::None)], vec![]),
+            End::MinByKey => (vec![rest.iter().min().map(|i| Val::Id(*i)).unwrap_or(Val::None)], vec![]),
+            End::Find(_) => match first {
+                Some(i) => after(vec![Val::Id(rest[i])], vec![], &rest[i + 1..]),
+                None => after(vec![Val::None], vec![], &[]),
+            },
+            End::RFind(_) => match last {
+                Some(i) => after(vec![Val::Id(rest[i])], vec![], &rest[..i]),
+                None => after(vec![Val::None], vec![], &[]),
+            },
+            End::Position(_) => match first {
+                Some(i) => after(vec![], vec![i], &rest[i + 1..]),
+                None => after(vec![], vec![usize::MAX], &[]),
+            },
+            End::RPosition(_) => match last {
+                Some(i) => after(vec![], vec![i], &rest[..i]),
+                None => after(vec![], vec![usize::MAX], &[]),
+            },
+            End::Any(_) => match first {
+                Some(i) => after(vec![], vec![1], &rest[i + 1..]),
+                None => after(vec![], vec![0], &[]),
+            },
+            End::All(_) => match first {
+                Some(i) => after(vec![], vec![0], &rest[i + 1..]),
+                None => after(vec![], vec![1], &[]),
+            },
         }
     }
 }
